@@ -25,6 +25,8 @@ pub struct WriteAheadLog {
     flush_queue: VecDeque<WalBlock>,
     file: DBFile,
     block_size: usize,
+    /// Number of blocks (block zero included) that previous flushes already placed on disk.
+    flushed_blocks: u64,
 }
 
 impl FileOperations for WriteAheadLog {
@@ -40,6 +42,7 @@ impl FileOperations for WriteAheadLog {
             flush_queue: VecDeque::new(),
             file,
             block_size,
+            flushed_blocks: 1,
         })
     }
 
@@ -61,12 +64,15 @@ impl FileOperations for WriteAheadLog {
             block_size
         };
 
+        let flushed_blocks = header_buf.metadata().wal_header.total_blocks.max(1);
+
         Ok(Self {
             header: header_buf,
             current_block: None, // If needed, will be allocated on push.
             flush_queue: VecDeque::new(),
             file,
             block_size,
+            flushed_blocks,
         })
     }
 
@@ -83,6 +89,7 @@ impl FileOperations for WriteAheadLog {
         self.header = BlockZero::alloc(0, self.block_size);
         self.current_block = None;
         self.flush_queue.clear();
+        self.flushed_blocks = 1;
         Ok(())
     }
 }
@@ -356,8 +363,8 @@ impl WriteAheadLog {
 
     pub fn perform_flush(&mut self) -> io::Result<()> {
         // Block 0 always exists, additional blocks start at index 1
-        let mut block_number: u64 = 1;
-        let mut write_offset = self.block_size as u64;
+        let mut block_number: u64 = self.flushed_blocks;
+        let mut write_offset = block_number * self.block_size as u64;
 
         // Flush queued blocks
         while let Some(block) = self.flush_queue.pop_front() {
@@ -375,6 +382,7 @@ impl WriteAheadLog {
                 block_number += 1;
             }
         }
+        self.flushed_blocks = block_number;
 
         // Update header metadata
         self.header.metadata_mut().wal_header.total_blocks = block_number;
